@@ -283,7 +283,8 @@ fn finish_set<S: SetOps>(start: Option<S>, p: &mut P) -> String {
             _ => bools.push(if s.contains_b(&e).expect("contains is public for this kind") { '1' } else { '0' }),
         }
     }
-    let items: Vec<String> = s.items_b().iter().map(|b| hx(b)).collect();
+    // the elements as EMITTED: the collection's own bytes decoded again (order of the bytes, not of the in-memory vector)
+    let items: Vec<String> = match S::from_b(s.to_b()) { Some(d) => d.items_b().iter().map(|b| hx(b)).collect(), None => vec!["undecodable".to_string()] };
     let json = match s.round_json() { Some(r) => hx(&r.to_b()), None => "jsonerr".into() };
     format!("ok b={} items={} bytes={} json={}", if bools.is_empty() { "-".into() } else { bools }, csv(&items), hx(&s.to_b()), json)
 }
